@@ -67,6 +67,7 @@ struct ghost {
   int err;              /* errno                                              */
   int faults;           /* injected failures so far                           */
   int first_errno;      /* errno of the first injected failure                */
+  int last_fault;       /* errno of the most recent injected failure          */
   int os_calls;         /* calls into the OS layer                            */
   bool may_block;       /* an OS contract that is allowed to sleep was used   */
   /* ---- last read / write / poll (to tie library results to kernel results) - */
